@@ -26,6 +26,9 @@ CLAIMED = {
  "C09": ("exploration", "chunk-sim", "4.6", "same histories with gzip negotiated; independent hand-written inflater/gzip parser as the client; reference model = accepted bytes",
          "Levels 1..9, chunk sizes from 1 byte, four payload kinds; after every successful flush the frames obtainable so far must inflate to every accepted byte, and the final body must be exactly one gzip member (CRC, ISIZE, no trailing bytes).",
          "One open known finding (F6, dependency flate2/miniz_oxide withholds bytes on flush) is identified by comparing with flate2 alone fed the same calls and reported as KNOWN-FINDING; any other shortfall is a violation."),
+ "C10": ("exploration", "thread-sim", "4.7", "real producer and consumer threads under a seeded baton scheduler (random / sticky / PCT) at lock-acquire, lock-release and wake granularity; deadlock = lost wake-up",
+         "Producer programs (write/flush/wait-until-delivered/abort/drop) against a consumer that parks on Pending until the waker of its latest poll fires, with spurious polls and fresh wakers. Oracles: no deadlock, no Pending once the writer is gone, everything written arrives before a clean end, abort never ends cleanly.",
+         "Assumes all shared state sits under the instrumented mutex (true for chunker.rs today); schedules are sampled, not enumerated."),
  "C11": ("fault_enumeration", "chunk-sim+thread-sim", "4.8", "abort and body-drop injected at drawn positions of operation histories (and, in thread-sim, at every scheduling point); per-thread heap counter for the release clause",
          "Faults = abort / body drop before any data, mid-chunk, after a flush, after partial consumption, raw and gzip. Abort: next terminal event is an error, never end-of-stream before it, delivered bytes a prefix, later writes/flushes fail. Body drop: flushes with data and chunk-completing writes fail, accepted-without-error bytes stay below one chunk, queued memory is released.",
          "Weaker reading where the text leaves room: a flush with nothing to hand over may return Ok after the body is gone."),
@@ -44,6 +47,9 @@ CLAIMED = {
  "C15": ("exploration", "serve-sim", "4.12", "paired GET/HEAD exchanges against the same simulated world; entity read-counter seam",
          "Every generated request is replayed as HEAD with the clock advanced; status and all non-clock headers must be equal, body empty with exact hint 0, zero get_range calls.",
          "Request space as wide as the serve-sim generator."),
+ "C18": ("fault_enumeration", "file-sim", "4.14", "real ChunkedReadFile on real temp files with the positioned read behind a fault-injecting seam (truncate, extend, short read, EINTR, EIO at a drawn read instant)",
+         "File size classes around the 64 KiB read size x range shapes x read-size policies x one fault at a drawn read index, polled directly and through serve(); plus metadata scenarios (reopen, append, mtime change, replace by rename, directory, device).",
+         "Linux local file system semantics; grid cells are sampled and reported."),
  "C20": ("fault_enumeration", "serve-sim+chunk-sim+file-sim", "4.15", "over-polling (k=1..4) after every terminal event produced under injected faults",
          "After each kind of terminal event (clean end, entity error, too short, too long, end-of-stream flag) at sampled fault positions the consumer polls 1..4 more times: no panic, no data.",
          "The simulated entity's streams are fused, as the property presupposes."),
@@ -88,6 +94,12 @@ def main():
             "add_only": True,
         },
         "engines": extra.get("engines", [
+            {"name": "chunk-sim", "path": "/verif/sim/src/engine_b.rs", "serves_properties": ["C08","C09","C11","C12","C15","C17","C20"],
+             "kind_free_text": "operation-granularity histories over the real streaming_body writer/body pair with a reference model and an independent inflater"},
+            {"name": "thread-sim", "path": "/verif/sim/src/engine_c.rs", "serves_properties": ["C10","C11","C12"],
+             "kind_free_text": "real producer/consumer threads under a seeded baton scheduler hooked into the chunker's mutex and the wakers"},
+            {"name": "file-sim", "path": "/verif/sim/src/engine_d.rs", "serves_properties": ["C18","C12","C20"],
+             "kind_free_text": "real ChunkedReadFile over real files with a fault-injecting read seam"},
             {"name": "serve-sim", "path": "/verif/sim/src/engine_a.rs", "serves_properties": ["C01","C02","C06","C07","C12","C13","C14","C15","C20"],
              "kind_free_text": "deterministic simulation of serve(): simulated entity streams (chunking, Pending, faults), consumer, clock"},
         ]),
